@@ -28,20 +28,39 @@ def split_line(line):
     return head.split(), tail.split()
 
 
+# random suites: (name, P(generator<int,int>), body flavours, consumer styles for generator<int> / generator<int,int>, cases quick / thorough)
+PROFILES = {
+    "mixed-styles": dict(p_arg=0.35, flavours=["sync", "sync", "async", "async", "mixed", "guards"],
+                         styles_v=["next", "anext", "call", "iter", "for", "mixed", "mixed"],
+                         styles_a=["next", "anext", "call", "mixed", "mixed"], quick=1200, thorough=90000, corpus=True),
+    "sync-access-of-async-body": dict(p_arg=0.3, flavours=["async", "mixed"], styles_v=["next", "iter", "for", "call-wait"],
+                                      styles_a=["next", "call-wait"], quick=500, thorough=60000),
+    "async-access": dict(p_arg=0.4, flavours=["async", "mixed", "sync"], styles_v=["anext", "call", "mixed"],
+                         styles_a=["anext", "call", "mixed"], quick=500, thorough=60000),
+    "arguments": dict(p_arg=1.0, flavours=["args", "args", "mixed"], styles_v=["mixed"], styles_a=["next", "anext", "call", "mixed", "mixed"],
+                      quick=400, thorough=50000),
+    "destroy-parked": dict(p_arg=0.2, flavours=["guards"], styles_v=["next", "anext", "call", "iter", "mixed"],
+                           styles_a=["next", "anext", "call", "mixed"], quick=400, thorough=40000, p_destroy=0.85),
+}
+
+
 class GenSuite(Suite):
-    name = "generator-scripts"
     harness = HARNESS
     driver = "drv_c13"
-    corpus_prefix = "c13_"
     chunk = 50
     timeout = 240
+
+    def __init__(self, name="mixed-styles"):
+        self.name = name
+        self.prof = PROFILES[name]
+        self.corpus_prefix = "c13_" if self.prof.get("corpus") else None
     nontrivial_rule = ("at least two accesses were served and (two access styles were mixed or the body suspended on a "
                        "pending operation or ended with an exception)")
 
     # ------------------------------------------------------------------ generator
     def gen_script(self, rng, mode):
         n = rng.choice([0, 1, 2, 3, 4, 5, 6, 7, 8, 10, 12])
-        flavour = rng.choice(["sync", "sync", "async", "async", "mixed", "guards"])
+        flavour = rng.choice(self.prof["flavours"])
         acts = []
         v = rng.randint(1, 9)
         for _ in range(n):
@@ -50,6 +69,8 @@ class GenSuite(Suite):
                 a = "y" if r < 0.7 else "n" if r < 0.8 else "r" if r < 0.9 else "g"
             elif flavour == "guards":
                 a = "y" if r < 0.5 else "g" if r < 0.8 else "p" if r < 0.9 else "n"
+            elif flavour == "args":
+                a = "y" if r < 0.55 else "n" if r < 0.8 else "p" if r < 0.9 else "f" if r < 0.95 else "r"
             else:
                 a = ("y" if r < 0.45 else "p" if r < 0.62 else "f" if r < 0.74 else "n" if r < 0.82 else
                      "r" if r < 0.88 else "g" if r < 0.96 else "y")
@@ -68,13 +89,11 @@ class GenSuite(Suite):
         return acts
 
     def gen_case(self, rng, tier):
-        mode = "a" if rng.random() < 0.35 else "v"
+        mode = "a" if rng.random() < self.prof["p_arg"] else "v"
         acts = self.gen_script(rng, mode)
         ks = sorted({int(a[1:]) for a in acts if a[0] in "pf"})
         lines = ["case 0 %s %d" % (mode, rng.choice([0, 0, 1, 2])), "script " + " ".join(acts)]
-        styles_v = ["next", "anext", "call", "iter", "for", "mixed", "mixed"]
-        styles_a = ["next", "anext", "call", "mixed", "mixed"]
-        style = rng.choice(styles_a if mode == "a" else styles_v)
+        style = rng.choice(self.prof["styles_a"] if mode == "a" else self.prof["styles_v"])
         nops = rng.randint(2, 8) if rng.random() < 0.25 else rng.randint(6, 26)
         arg = 100
         pre = rng.random() < 0.15          # complete some operations before the body reaches them
@@ -124,6 +143,10 @@ class GenSuite(Suite):
                 ops.append(rng.choice(["fwait", "fwait", "fawait", "fhas", "fget", "fget"]))
                 if rng.random() < 0.3:
                     ops.append(rng.choice(["fwait", "fget", "value"]))
+            elif style == "call-wait":
+                ops = [access("call"), "fwait"]
+                if rng.random() < 0.3:
+                    ops.insert(1, rng.choice(["fawait", "fhas"]))
             elif style == "iter":
                 if not have_it:
                     ops = ["begin", "isend", "deref"]
@@ -156,7 +179,7 @@ class GenSuite(Suite):
                 else:
                     ops = [k]
             lines += ops
-        if rng.random() < 0.3:
+        if rng.random() < self.prof.get("p_destroy", 0.3):
             lines.append("destroy")
             for _ in range(rng.randint(0, 3)):
                 lines.append(rng.choice(["fget", "fwait", "value", access("next"), completion()]))
@@ -164,7 +187,7 @@ class GenSuite(Suite):
         return {"id": 0, "lines": lines}
 
     def gen_cases(self, rng, tier):
-        n = 1500 if tier == "quick" else 40000
+        n = self.prof["quick"] if tier == "quick" else self.prof["thorough"]
         return [self.gen_case(rng, tier) for _ in range(n)]
 
     # ------------------------------------------------------------------ oracle: the statement of C13 on the trace
@@ -398,6 +421,52 @@ class GenSuite(Suite):
                 "destroy_of_parked_generator_with_live_guards": destroyed_parked}
 
 
+class ExhSuite(GenSuite):
+    """bounded-exhaustive: every script over a small alphabet up to a length x every consumer operation sequence over a small
+    alphabet up to a length (quick: scripts <= 2 statements x <= 3 operations; thorough: <= 3 x <= 4), split into parts"""
+    ACTS = ["y", "p0", "n", "g", "t"]
+    OPS = ["next", "value", "anext", "call", "fwait", "complete 0", "for", "destroy"]
+
+    def __init__(self, part, parts):
+        self.name = "exhaustive-small-%d" % part
+        self.prof = PROFILES["mixed-styles"]
+        self.corpus_prefix = None
+        self.part, self.parts = part, parts
+
+    def gen_cases(self, rng, tier):
+        import itertools
+        la, lo = (2, 3) if tier == "quick" else (3, 4)
+        scripts = [()]
+        for n in range(1, la + 1):
+            scripts += list(itertools.product(self.ACTS, repeat=n))
+        opseqs = []
+        for n in range(1, lo + 1):
+            opseqs += list(itertools.product(self.OPS, repeat=n))
+        cases = []
+        idx = 0
+        for sc in scripts:
+            acts, v = [], 1
+            for a in sc:
+                if a == "y":
+                    acts.append("y%d" % v)
+                    v += 1
+                else:
+                    acts.append(a)
+            for ops in opseqs:
+                idx += 1
+                if idx % self.parts != self.part:
+                    continue
+                mode = "a" if (idx // self.parts) % 3 == 0 else "v"
+                if mode == "a" and "for" in ops:
+                    mode = "v"
+                lines = ["case 0 %s %d" % (mode, idx % 3), "script " + " ".join(acts)]
+                for j, o in enumerate(ops):
+                    lines.append("%s %d" % (o, 10 + j) if mode == "a" and o in ("next", "anext", "call") else o)
+                lines.append("end")
+                cases.append({"id": 0, "lines": lines})
+        return cases
+
+
 class C13(Spec):
     pid = "C13"
     lean_modules = ["CoclsModel.Props.C13"]
@@ -423,7 +492,7 @@ class C13(Spec):
                    "value() is not called while an asynchronous access is outstanding"]
 
     def suites(self):
-        return [GenSuite()]
+        return [GenSuite(n) for n in PROFILES] + [ExhSuite(i, 4) for i in range(4)]
 
 
 SPEC = C13()
